@@ -100,6 +100,13 @@ Proof. exact blk_subscribe_src_eq. Qed.
 Theorem C11_src_blocking_session_run_is_model : forall ident secret es, brun_src ident secret es = brun ident secret es.
 Proof. exact brun_src_eq. Qed.
 
+(* Reactor._connect, translated from hpfeeds/blocking/reactor.py on every run (pytrans5.py): a new connection of the blocking
+   session starts with a fresh, empty outbox and no unsent bytes - nothing written before it can precede its OP_AUTH *)
+From HP Require Import Reactor PyReactor ReactorGen ReactorGenEq.
+Theorem C11_src_reactor_connect_fresh : forall r, outbox (Reactor_connect r) = [] /\ buffer (Reactor_connect r) = [] /\
+  sent (Reactor_connect r) = sent r /\ puts (Reactor_connect r) = puts r.
+Proof. exact connect_fresh_src. Qed.
+
 Print Assumptions C11_asyncio.
 Print Assumptions C11_blocking_session_refuted.
 Print Assumptions C11_blocking_session_partial.
@@ -118,3 +125,4 @@ Print Assumptions C11_src_twisted.
 Print Assumptions C11_src_twisted_connection_ready_is_model.
 Print Assumptions C11_src_blocking_session_subscribe_is_model.
 Print Assumptions C11_src_blocking_session_run_is_model.
+Print Assumptions C11_src_reactor_connect_fresh.
